@@ -9,6 +9,12 @@ CHECKS = {
  "C08": ("other", "SSA typestate rule: first-write-wins capture of the restore slot (guard analysis), provenance of captured/restored values, ordering capture-before-overwrite, who-may-write the variable",
          "Decides the capture/restore discipline that 'Cancel/Reset puts back the value before the first mock' rests on, for every history of Set/Apply/Cancel because it holds on every CFG path. Does not decide visibility to concurrent readers or symbol-address correctness for unexported variables (C10).",
          "Trusted: go/ssa, dominator-based guards; reflect.Value.Set is the only way VarMock implementations write the variable (asserted by rule R3 over all their methods)."),
+ "C09": ("other", "SSA branch-structure analysis: reflect.Kind constants tested on the edges into the nil arm, provenance of Zero/New type arguments, size-equality guards dominating unsafe retyping and pass-through returns, error-use analysis at call sites",
+         "Decides that the converter's nil arm names every nilable kind the property lists, that typed zero/boxing cells are typed by the declared type, that no value reaches a caller retyped without a size check, and that conversion errors cannot be dropped. Value-level fidelity (DeepEqual) is not decided.",
+         "Trusted: go/ssa; reflect.Kind numeric values from the toolchain's reflect package as loaded."),
+ "C13": ("other", "interprocedural dominance over the module call graph (write-reaching calls confined to err==nil continuations, no reject after a write, signature check on every static path), error-use analysis, interface-satisfaction and constructor/dynamic-type agreement over package erro, DBM equivalence of count guards",
+         "Decides the ordering discipline that makes a rejected configuration leave nothing patched on every path, that no in-module error is dropped, that the cause chain is walkable and each typed cause constructible, and that count/size reject conditions compare the quantities the property names. That each mistake class is detected for every value is not decided.",
+         "Trusted: go/ssa, module call graph (static calls + invokes on module interfaces); three per-construct suppressions listed with reasons in c13.go."),
 }
 NA = {}
 PENDING_REASON = "check not built yet in this revision (planned per DESIGN.md section 3); not claimed until it runs"
